@@ -11,6 +11,10 @@ FRAGS = [2, 3, 7, 50, 100, 199, 200, 500, 1200, 4093, 4094, 4095, 8000, 65535]
 def gen_session_cfg(rng, idx):
     cfg = _gen_session_cfg(rng, idx)
     cfg["sendfaults"] = idx % 4 == 2         # a quarter of the sessions see occasional sendto() failures on the server
+    if idx % 7 == 3:
+        # tunnel domains with labels of the maximum length (63) and short ones
+        lab = lambda n: "".join(rng.choice("abcdefghijklmnopqrstuvwxyz0123456789") for _ in range(n))
+        cfg["domain"] = rng.choice([lab(63) + ".example.com", "t." + lab(63) + ".org", lab(63) + "." + lab(63), "a.bc", lab(62) + ".x.example.com"])
     return cfg
 
 
@@ -62,7 +66,7 @@ def run_session(tag, cfg, seed, ops_filter=None, redeliver=True, setup_only=Fals
         extra.append("-c")
     if cfg.get("ns_ip"):
         extra += ["-n", cfg["ns_ip"]]
-    dom = scen.DOMAIN
+    dom = cfg.get("domain") or scen.DOMAIN
     if cfg.get("wild"):
         # under a wildcard the clients use some label of their own choosing (1..12 characters)
         lab = "".join(rng.choice("abcdefghijklmnopqrstuvwxyz0123456789") for _ in range(rng.choice([1, 2, 4, 4, 7, 12])))
@@ -72,7 +76,7 @@ def run_session(tag, cfg, seed, ops_filter=None, redeliver=True, setup_only=Fals
         s.srv = sim.server(domain="*." + dom.split(".", 1)[1], extra=extra)
         s.server_domain = "*." + dom.split(".", 1)[1]
     else:
-        s.srv = sim.server(extra=extra)
+        s.srv = sim.server(domain=dom, extra=extra)
         s.server_domain = dom
     if not s.srv.alive():
         s.why = "server-died-at-start"
